@@ -26,7 +26,8 @@ RULE = ('Generated sessions (3-6 symbols with hash-diverse names, dense markets 
         'everywhere. Non-trivial = >= 3 assets and >= 1 rebalance producing >= 2 fills; the same-instant-entry / tie '
         'class is counted separately.'
         " Part `reuse` (in-process): a fresh run against a run on a data-handler object that already served another session, with one symbol's file starting inside the session and the asset joining the universe shortly before its first bar; and sessions that build their own handler from the current directory after a backtest was run from another directory. Alpha kinds also include rotating weight vectors and a model reading the data source's range query."
-        " Round-10 reach: a third of the markets quote unrounded doubles (seventeen significant digits), half of them below 1.")
+        " Round-10 reach: a third of the markets quote unrounded doubles (seventeen significant digits), half of them below 1."
+        " Round-11 reach: lookback lists are objects of the configuration, shared by every run of it.")
 ASSUMPTIONS = [
     'hash seeds 0-3 (quick) / 0-4 plus one derived from VERIF_SEED (thorough)',
     'order identifiers (uuid4) are excluded from the comparison, as the statement says',
@@ -164,6 +165,7 @@ def preludes(cfg):
         al['vectors'] = list(reversed(al['vectors']))
     else:
         al['lookback'] = al['lookback'] + 1
+    al.pop('lookback_list', None)
     c['burn_in'] = None
     out.append(c)
     return out
